@@ -32,10 +32,16 @@ def run_bc(ck, family, clauses):
             ck.fail_input(f[2], l, traces.get(f[1], []))
         elif l.startswith("diff "):
             diffs.append((f[1], l))
+    ndirect = 0
     for l in ex:
+        if l.startswith("direct "):
+            ndirect += 1
         if l.startswith("direct ") and " FAIL " in l:
+            # clauses the harness evaluates itself: `direct <clause> scn=<n> ok|FAIL ...` (liveness watchdog, c16_drained,
+            # c12_keepalive_armed, c12_keepalive_expiry)
             k = l.split("scn=")[1].split()[0] if "scn=" in l else ""
-            ck.fail_input("liveness", l, traces.get(k, []) + [l])
+            ck.fail_input(l.split()[1], l, traces.get(k, []) + [l])
+    ck.extra["direct_clauses_evaluated_bc"] = ndirect
     if diffs and not ck.violations:
         rl = []
         for k, l in diffs[:3]:
